@@ -1,5 +1,7 @@
 """Mini interval evaluator over MIR operands (constants, casts that fit, % / & >> by constants,
 checked-arithmetic tuples, results of functions that return only constants)."""
+import re
+
 from .flow import is_place
 
 UMAX = {"u8": 255, "u16": 65535, "u32": 2**32 - 1, "u64": 2**64 - 1, "usize": 2**64 - 1}
@@ -52,6 +54,16 @@ class Interval:
             return decl
         (b, i, kind, payload) = ds[0]
         if kind == "call":
+            cal = payload.get("callee") or ""
+            # lossless widening written as a conversion call (`u64::from(x)`, `x.into()`): the value is the argument's
+            if not proj and decl and re.search(r"convert::(From(<[a-z0-9]+>>?)?::from|Into(<[a-z0-9]+>>?)?::into)$", cal) and len(payload["args"]) == 1:
+                a0 = payload["args"][0]
+                inner = self.of(a0, depth + 1)
+                if inner is None and is_place(a0) and not a0["pl"]["p"]:
+                    inner = ty_range(fn.locals[a0["pl"]["l"]])
+                if inner and decl and decl[0] <= inner[0] and inner[1] <= decl[1]:
+                    return inner
+                return decl
             g = self.prog.callee_fn(payload)
             if g is not None and not proj:
                 r = const_returns(self.prog, g)
